@@ -26,7 +26,11 @@ from rpylib.process.levyprocess import (
     SimulationWithJumpTimes,
     SimulationMaximumStep,
 )
-from rpylib.process.markovchain.markovchain import MarkovChain, compute_mu_h
+from rpylib.process.markovchain.markovchain import (
+    MarkovChain,
+    chain_over_intervals,
+    compute_mu_h,
+)
 from rpylib.product.payoff import PayoffDates
 from rpylib.product.product import Product
 
@@ -339,7 +343,8 @@ class MCLevyCopulaSimulationWithJumpTimes(
 
     def simulate_jumps(self):
         mc = self.simulate_markov_chain()
-        jump_values = np.concatenate(mc.values, axis=-1).T
+        # shape (dimension, number of jumps); (dimension, 0) without jumps
+        jump_values = chain_over_intervals(mc.values).reshape(-1, self._dimension).T
         jump_times = mc.times
         return jump_times, jump_values
 
